@@ -772,6 +772,16 @@ func (c *c15LedgerCase) execSnap(f []string, prop string, res *Result) {
 		txs = append(txs, id)
 	}
 	snap.Hash = snap.PayloadHash()
+	// EncodeSnapshotPayload sorts snap.Transactions in place by hash: that is the order in which
+	// writeSnapshot finalizes the members. The model is told the real order (an oracle input).
+	txs = txs[:0]
+	var sorted []string
+	for _, h := range snap.Transactions {
+		txs = append(txs, c.txID[h])
+		sorted = append(sorted, strconv.Itoa(c.txID[h]))
+	}
+	f[7] = strings.Join(sorted, ",")
+	res.LeanIn = strings.Join(f, " ")
 	if old, ok := c.snapID[snap.Hash]; ok && old != sid {
 		panic("harness: two snapshot symbols for one hash")
 	}
